@@ -51,11 +51,17 @@ def _run(ctx, ncases, rec):
       except Exception as e:
         acc.hit("rejected:" + type(e).__name__)
         continue
-      d = mjw.put_data(mjm, mjd, nworld=1, naconmax=150, njmax=300)
+      # capacities are part of the input space: a model without constraints may be given njmax = 0 (the constraint stage and the
+      # solver context are then skipped altogether)
+      caps = dict(naconmax=150, njmax=300)
+      if int(mjd.nefc) == 0 and int(mjd.ncon) == 0 and rng.random() < 0.7:
+        caps = dict(naconmax=0, njmax=0)
+      acc.hit("njmax=0" if caps["njmax"] == 0 else "njmax>0")
+      d = mjw.put_data(mjm, mjd, nworld=1, **caps)
       mjw.forward(m, d)
       if disc:
         # the acceleration the discrete step actually uses: take a step on a copy and difference the velocity
-        d2 = mjw.put_data(mjm, mjd, nworld=1, naconmax=150, njmax=300)
+        d2 = mjw.put_data(mjm, mjd, nworld=1, **caps)
         mjw.step(m, d2)
         qacc_d = (d2.qvel.numpy()[0] - mjd.qvel) / mjm.opt.timestep
         d.qacc.assign(qacc_d[None].astype(np.float32))
